@@ -427,7 +427,7 @@ def cells():
             yield slots, dict(zip(ids, lens))
 
 
-def zip_longest_table(ctx, rid: str) -> None:
+def zip_longest_table(ctx, rid: str, consumption: bool = True) -> None:
     ctx.rule(rid, "zip_longest as a table: for 1-3 argument positions holding 1-3 iterator objects (the same object may be "
                   "passed several times) of 0-3 items each, the rows yielded and the number of items taken from each "
                   "source equal itertools.zip_longest's")
@@ -472,7 +472,7 @@ def zip_longest_table(ctx, rid: str) -> None:
         want_rows, want_all = zip_longest_spec(slots, lengths)
         want_taken = {k: min(lengths[k], want_all.count(k)) for k in lengths}
         want_polled = [f"it{k}:{n}" for k, n in sorted(want_taken.items())]
-        ok = oc.terminal.kind == "exit" and rows == want_rows and taken == want_taken
+        ok = oc.terminal.kind == "exit" and rows == want_rows and (taken == want_taken or not consumption)
         if not ok:
             bad += 1
             if bad <= 3:
